@@ -159,6 +159,51 @@ func Hostile() []Seed {
 		add("typecheck-generic", "#wa:generic add_f64\nfunc add(a, b: int) => int { return a+b }\nfunc add_f64(a, b: f64) => f64\n#wa:operator + add\ntype V struct{}\nfunc main() { println(add(1.0, 2)) }\n")
 		add("typecheck-consts", "const (\n\ta = iota / 0\n\tb = 1 % 0\n\tc = \"a\"[5]\n\td = -\"s\"\n\te = ^1.5\n\tf = 1 << -1\n\tg = 1.0 << 1e10\n)\nfunc main() {}\n")
 		add("typecheck-labels", "func main() {\nL: L: goto L; break M; continue L\nfor { break L }\n}\n")
+		// one construct per program: the loader stops at the first type error
+		for i, prog := range []string{
+			"type T struct { *T; x: int }\nfunc main() { t: T; t.foo() }\n",
+			"type A struct { *B }\ntype B struct { *A }\nfunc main() { a: A; println(a.zz) }\n",
+			"type T struct { *T; x: int }\nfunc main() { t: T; println(t.x, t.T.T.T.x) }\n",
+			"type C struct { C }\nfunc main() { c: C; c.C.C.m() }\n",
+			"type F func(F) => F\nfunc main() { f: F; f(f)(f) }\n",
+			"type L []L\nfunc main() { l: L; _ = l[0][0][0]; println(len(l)) }\n",
+			"type M map[string]M\nfunc main() { m: M; _ = m[\"a\"][\"b\"] }\n",
+			"type P *P\nfunc main() { p: P; _ = ***p }\n",
+			"type Q [2]Q\nfunc main() { println(len(Q{})) }\n",
+			"type R struct { r: [len(R{}.r)]int }\nfunc main() { println(R{}) }\n",
+			"type K map[K]int\nfunc main() { println(K{}) }\n",
+			"type I interface { I }\nfunc main() { i: I; i.f() }\n",
+			"type J interface { K }\ntype K interface { J }\nfunc main() { j: J; j.f() }\n",
+			"type T interface { m() => interface{ T } }\ntype U interface { m() => interface{ U } }\nfunc main() { t: T; u: U; t = u; u = t; _ = t.(U) }\n",
+			"global a = b\nglobal b = c + f()\nglobal c = a\nfunc f() => int { return a }\nfunc main() { println(a, b, c) }\n",
+			"const x = y\nconst y = len([x]int{})\nfunc main() { println(x, y) }\n",
+			"func f() => int { return g() }\nfunc g() => int { return f() }\nglobal v = f()\nfunc main() { println(v) }\n",
+			"type T struct { f: func(T) }\nfunc T.m(t: T) => T { return t.m(t).m(*this) }\nfunc main() { t: T; t.m(t) }\n",
+			"type T struct {}\nfunc T.n() => (r: T) { return this.n }\nfunc main() {}\n",
+			"type T struct {}\nfunc T.m() {}\ntype E struct { T; *E }\nfunc main() { e: E; e.m(); e.E.E.m(); _ = E.m; _ = (*E).m }\n",
+			"type T struct { a: int }\nfunc main() { x := []T{{1}, {a: 2}, 3: {}}; for i, v := range x { println(i, v.a, v.b) } }\n",
+			"func main() { x := nil; y := x; println(y) }\n",
+			"func main() { a, b := 1; c, d := f(); println(a, b, c, d) }\nfunc f() {}\n",
+			"func main() { switch x := any(1).(type) { case int, string: println(x); case nil: println(x); case int: } }\n",
+			"func main() { L: for { for { break L; continue L; goto M } }; M: }\n",
+			"func main() { defer recover(); defer panic(1); defer func() {}; x := [...]int{9: 1, 1e3: 2}; println(len(x)) }\n",
+			"func f(a: ...int, b: int) {}\nfunc g(a: ...int) {}\nfunc main() { g([]int{}...); g(1, []int{}...); f() }\n",
+			"func main() { println(1 << 64 >> 64, 1.0 << 3, \"a\"[1:2:3], []int{}[1:2:3:4], -1 >> -1, 5 / 0.0) }\n",
+			"import \"strconv\"\nimport s \"strconv\"\nimport . \"strconv\"\nfunc main() { println(strconv.Itoa(1), s.Itoa, Itoa) }\n",
+			"type T struct { a, a: int; T: int }\nfunc T.a() {}\nfunc T.T() {}\nfunc main() { println(T{}.a) }\n",
+			"func main() { var ( a: int = \"s\"; b = a + nil ); a.b.c = 1; a++ ; a += \"x\"; println(a, b) }\n",
+			"func main() { x := func() => (a, b: int) { return }; a, b, c := x(); println(a, b, c, x()) }\n",
+			"func main() { m := map[[]int]func(){}; m[nil](); ch := make(chan int); println(m, ch) }\n",
+			"func main() { for i := range 10 { println(i) }; for i, j, k := range []int{} {}; for range nil {} }\n",
+			"func main() { x := struct{ a: int }{1}; y := struct{ a: int; b: string }{1}; println(x == y, x.a, y) }\n",
+			"func main() { p := &[]int{1}[0]; q := &main; r := &1; println(*p, q, r, *nil) }\n",
+			"#wa:generic F2\nfunc F(a: int) {}\nfunc F2(a: f64) {}\nfunc main() { F(1); F(1.5); F(\"s\") }\n",
+			"#wa:operator + Add\ntype V struct { x: int }\nfunc Add(a, b: V) => V { return V{a.x + b.x} }\nfunc main() { println((V{1} + V{2}).x, V{1} - V{2}, V{1} + 1) }\n",
+			"#wa:linkname\nfunc f()\n#wa:linkname f\nfunc g()\n#wa:linkname $a.b \"x\"\nfunc h() => int\nfunc main() { f(); g(); println(h()) }\n",
+			"#wa:import a b c\nfunc f(x: string) => string\n#wa:export main\nfunc g() {}\n#wa:export\nfunc main() { println(f(\"\")) }\n",
+		} {
+			add("typecheck-"+string(rune('a'+i/26))+string(rune('a'+i%26)), prog)
+		}
 		add("wz-typecheck", "类型 甲 甲\n全局 乙: [长(乙)]整型\n函数 主控:\n\t设定 x = 空\n\tx()\n\t返回 1, 2\n完毕\n")
 		// --- wat
 		add("wat-empty-module", "(module)")
